@@ -559,6 +559,15 @@ def check(ctx):
                     heads.append(tt if is_eq else ft)
         if somes and heads and all(lib.dominated_by_any(c, s, heads) for s in somes):
             cmp_ok = True
+        # `(a == b).then(|| x)` / `.then_some(x)`: Some only where the comparison was equal
+        eqs_ = {b: is_eq for (b, t, fr, is_eq) in lib.comparison_calls(c)}
+        for b, t, fr in c.iter_calls():
+            if fr and lib.tail(mir.fn_name(fr), 2) in ("bool::then", "bool::then_some") and t["args"]:
+                p_ = op_place(t["args"][0])
+                src = lib.bool_source(c, p_["l"]) if p_ is not None and not p_["p"] else None
+                if src and src[0] in whole and (eqs_[src[0]] != src[1]) and not somes \
+                        and all(o[0] == "call" and o[1] == b for o in origins(c, {"copy": {"l": 0, "p": []}})):
+                    cmp_ok = True
         # filter form: the predicate returns true only when the comparison was equal
         reqs = lib.true_return_requirements(c) if c.local_ty(0) == "bool" else None
         if reqs and all(any(r.get(b) is True for b in whole) for r in reqs):
@@ -692,7 +701,7 @@ def absent_or_empty_arms(prog, body, src):
                 out.append(tt)
     for b in sorted(body.reachable):
         info = mir.switch_on(body, b)
-        if info and info["kind"] == "bin" and info["bin"]["op"] in ("Eq", "Ne") and lib.const_val(info["bin"]["r"]) == 0:
+        if info and info["kind"] == "bin" and info["bin"]["op"] in ("Eq", "Ne", "Gt") and lib.const_val(info["bin"]["r"]) == 0:
             x = info["bin"]["l"]
             understood = LP.len_sources(prog, body, x) is not None
             p = op_place(x)
